@@ -132,6 +132,7 @@ type vfOp struct {
 	Key  string  `json:"key"`
 	Sid  int     `json:"sid"`
 	Kind vfKind  `json:"kind"`
+	En   bool    `json:"enabled"`
 }
 type vfHist struct {
 	ID   int    `json:"id"`
@@ -231,7 +232,8 @@ func TestVerifGrantsReplay(t *testing.T) {
 		now = vfBase
 		clock.Unlock()
 		ks := authkeys.NewSyncAuthKeySet()
-		s, err := NewHopServerExt(nil, &config.ServerConfig{EnableAuthgrants: true}, ks)
+		scfg := &config.ServerConfig{EnableAuthgrants: true}
+		s, err := NewHopServerExt(nil, scfg, ks)
 		if err != nil {
 			t.Fatal(err)
 		}
@@ -256,6 +258,8 @@ func TestVerifGrantsReplay(t *testing.T) {
 					in.GrantType = authgrants.RemotePF
 				}
 				r["err"] = fmt.Sprint(s.AddAuthGrant(in))
+			case "toggle":
+				scfg.EnableAuthgrants = op.En // the flag is read live through the configuration pointer
 			case "tick":
 				clock.Lock()
 				now = vfBase.Add(time.Duration(op.Now) * time.Minute)
